@@ -32,7 +32,7 @@ REQUIRED = ["route_r_stb", "route_w_stb", "fwd_addr", "fwd_w_data", "r_data_upst
 
 
 def n_cases(tier):
-    return 240 if tier == "quick" else 3600
+    return 720 if tier == "quick" else 9000
 
 
 def gen_case(rng, tier, idx):
